@@ -174,6 +174,7 @@ inductive RuleK where
   | charset (enc : Name)
   | comment
   | imp
+  | other
 deriving DecidableEq, Repr, Inhabited
 
 structure Sheet where
@@ -278,7 +279,8 @@ def parseItems (w : World) (child : ChildLoader) : List Item → Nat → PState 
           | .ok r2 =>
             parseItems w child t 1
               ⟨s', ⟨st.out.log ++ r1.out.log ++ r2.out.log, st.out.recs ++ r2.out.recs⟩⟩
-  | .other :: t, _, st => parseItems w child t 3 st
+  | .other :: t, _, st =>
+    parseItems w child t 3 ⟨{ st.sheet with rules := st.sheet.rules ++ [.other] }, st.out⟩
 
 /-- `_setCssTextWithEncodingOverride`, first part (`cssstylesheet.py:400-406`): remember override / new encoding -/
 def beginEO (s : Sheet) (eo en : Option Name) : Sheet :=
